@@ -190,7 +190,7 @@ def _check_restart(spec, ctx):
     first = spec["first"]
     for s in steps2:
         t = s["it"]
-        if t <= first + K:
+        if t < first + K:
             continue
         a = byA[t]
         for i, (ca, cb) in enumerate(zip(a["cv"], s["cv"])):
@@ -301,7 +301,7 @@ def view(spec):
 
 
 PARTS = {
-    "restart": {"strategy": spec_restart, "check": check_restart, "examples": {"quick": 1600, "thorough": 30000}, "sample": view},
-    "save_pure": {"strategy": spec_restart, "check": check_save_pure, "examples": {"quick": 500, "thorough": 8000}, "sample": view},
-    "opes_offschedule": {"strategy": spec_opes_off, "check": check_opes_off, "examples": {"quick": 64, "thorough": 400}, "sample": view},
+    "restart": {"strategy": spec_restart, "check": check_restart, "examples": {"quick": 8000, "thorough": 30000}, "sample": view},
+    "save_pure": {"strategy": spec_restart, "check": check_save_pure, "examples": {"quick": 2500, "thorough": 8000}, "sample": view},
+    "opes_offschedule": {"strategy": spec_opes_off, "check": check_opes_off, "examples": {"quick": 128, "thorough": 800}, "sample": view},
 }
